@@ -362,12 +362,6 @@ Definition out_coords (r : option region) : option (option Z * option Z) :=
 Definition region_product (names starts ends : list str) : list str :=
   flat_map (fun n => flat_map (fun a => map (fun b => n ++ c_colon :: a ++ c_hyphen :: b) ends) starts) names.
 
-(** numerals a.fff: every a in [0,na), every f in [0,10^k) printed with exactly k digits *)
-Definition pad_left (k : nat) (s : str) : str := repeat (digit_char 0) (k - length s) ++ s.
-Definition numerals (na : Z) (k : nat) : list str :=
-  flat_map (fun a => map (fun f => dec a ++ c_dot :: pad_left k (dec f)) (zrange 0 (Z.to_nat (10 ^ Z.of_nat k))))
-           (zrange 0 (Z.to_nat na)).
-
 (** every string of exactly n characters over an alphabet, first character most significant
     (the order of itertools.product(alpha, repeat=n)) *)
 Fixpoint strings_of_len (alpha : str) (n : nat) : list str :=
@@ -376,10 +370,15 @@ Fixpoint strings_of_len (alpha : str) (n : nat) : list str :=
   | S n' => flat_map (fun c => map (cons c) (strings_of_len alpha n')) alpha
   end.
 
+(** numerals a.fff: every a in [0,na), every fraction of exactly k digits (000 .. 999 for k = 3), in order *)
+Definition digits10 : str := map digit_char (zrange 0 10).
+Definition numerals (na : Z) (k : nat) : list str :=
+  flat_map (fun a => map (fun f => dec a ++ c_dot :: f) (strings_of_len digits10 k)) (zrange 0 (Z.to_nat na)).
+
 (** lossless run-length encoding of the successive differences of a result column
     (None is written as -1; results are never negative): [(delta, repeat); ...] starting from 0 *)
 Definition optz_code (o : option Z) : Z := match o with None => -1 | Some v => v end.
-Fixpoint rle_add (d : Z) (acc : list (Z * Z)) : list (Z * Z) :=
+Definition rle_add (d : Z) (acc : list (Z * Z)) : list (Z * Z) :=
   match acc with
   | (d', n) :: r => if d =? d' then (d', n + 1) :: r else (d, 1) :: acc
   | [] => [(d, 1)]
